@@ -862,7 +862,9 @@ class Class(Node):
         self.__deepcopy__ = None
         new = copy.deepcopy(self, memo)
         self.__deepcopy__ = _deepcp
-        new.__deepcopy__ = _deepcp
+        # The copy must use its own (class-level) __deepcopy__, not the method
+        # bound to the original instance.
+        del new.__deepcopy__
         return new
 
     def __repr__(self):
